@@ -262,7 +262,8 @@ def pool_pick(rng, idx=None):
 def gen_deck(rng, malformed=False):
     '''Abstract deck inside the model's scope.'''
     n = rng.randint(2, 7)
-    ids = rng.sample(range(1, 40), n + 8)
+    # numbers up to 999, so that 1000 * cell + surface needs all three digits
+    ids = rng.sample(list(range(1, 40)) + [105, 240, 999], n + 8)
     surfs = []
     for k in range(n):
         s = pool_pick(rng)
@@ -387,6 +388,12 @@ def gen_deck(rng, malformed=False):
         if badref and fault is None:
             fault = 'missing'       # names a surface / a cell that does not exist
         elif badref:
+            return gen_deck(rng, malformed)
+        # the converter walks set(names) - set(cards): keep the deck only when
+        # that walk is in ascending order, which is what the model assumes
+        walk = set(abs(x) for c in cells for x in c['lits']
+                   if abs(x) >= 1000) - set(s['id'] for s in surfs)
+        if list(walk) != sorted(walk):
             return gen_deck(rng, malformed)
     return {'surfs': surfs, 'cells': cells, 'fault': fault}
 
@@ -670,47 +677,6 @@ def oracle(deck, args, conv, t4, rng):
     return out
 
 
-def conflicting_loci(deck, last):
-    '''Two coincident loci carrying different proper flags: flagged single
-    cards and the copies made for converted cells with a TRCL / placed by a
-    FILL with a translation (compared numerically on sample points).'''
-    loci = []
-    for s in last.values():
-        if s['flag'] in ('*', '+') and s['mcnp'] == 1:
-            loci.append((s, None))
-    for c in deck['cells']:
-        shift = trcl_shift(c)
-        if shift is None or c['imp'] == 0:
-            continue
-        for k in cell_refs(deck, c):
-            s = last.get(k)
-            if s is not None and s['flag'] in ('*', '+') and s['mcnp'] == 1:
-                loci.append((s, shift))
-    points = sample_points(random.Random(4242), n=64)
-
-    def coincide(a, b):
-        same = opposite = True
-        for p in points:
-            va = mcnp_value(deck, a[0], p, a[1])
-            vb = mcnp_value(deck, b[0], p, b[1])
-            if abs(va) < 1e-6 or abs(vb) < 1e-6:
-                continue
-            if (va > 0) == (vb > 0):
-                opposite = False
-            else:
-                same = False
-        return same or opposite
-    return any(a[0]['flag'] != b[0]['flag'] and coincide(a, b)
-               for i, a in enumerate(loci) for b in loci[i + 1:])
-
-
-def trcl_shift(c):
-    '''Translation applied to the surfaces of the cell: its TRCL, or the
-    transformation of the FILL that places its universe.'''
-    text = c.get('trcl') or c.get('fillshift')
-    return [float(x) for x in text.split()] if text else None
-
-
 def written_possible(deck, dedup):
     '''False when no converted cell can survive (the run then stops on an
     empty max()): no cell with non-zero importance, or every one has two
@@ -750,9 +716,9 @@ def conflicting_loci(deck, last):
             loci.append((s, None))
     for c in deck['cells']:
         shift = trcl_shift(c)
-        if shift is None or c['imp'] == 0:
-            continue
-        for k in cell_refs(deck, c):
+        if shift is None:
+            continue        # skipped cells included: their copies are merged
+        for k in cell_refs(deck, c):    # with coincident surfaces all the same
             s = last.get(k)
             if s is not None and s['flag'] in ('*', '+') and s['mcnp'] == 1:
                 loci.append((s, shift))
@@ -867,6 +833,25 @@ def corpus_decks():
                          [{'id': 1, 'lits': [1, -1], 'imp': 1,
                            'trcl': '0 0 0'},
                           {'id': 2, 'lits': [-1, 2], 'imp': 1}, skip]), args))
+    # 1000 * cell + surface with a three-digit surface number (m16), the owner
+    # with a rotation, the flagged original unused
+    out.append((deck([card(1, '', 2), card(105, '*', 0), card(4, '', 3)],
+                     [{'id': 2, 'lits': [-1], 'imp': 1,
+                       'trcl': '0 3 0 0 1 0 -1 0 0 0 0 1'},
+                      {'id': 3, 'lits': [2105, -4, -1], 'imp': 1}, skip]), []))
+    # a one-sheet cone inside a cell: the plane of the sheet is merged into a
+    # card, the entry stays on the cone; and its copy under a quarter turn
+    # (the plane of the copy changes side)
+    cone_lo = {'id': 6, 'flag': '*', 'text': 'kz 0 1 -1', 'mcnp': 1,
+               'cls': CLASS_OF[_KZ], 'aux': [CLASS_OF[_pz(0)]],
+               'sides': [True, True], 'single': False, 'locus': None,
+               'pool': None}
+    for trcl in (None, '0 0 0 1 0 0 0 0 1 0 -1 0'):
+        cell = {'id': 1, 'lits': [-6, -7, -1], 'imp': 1}
+        if trcl:
+            cell['trcl'] = trcl
+        out.append((deck([card(1, '', 8), dict(cone_lo), card(7, '', 7)],
+                         [cell, skip]), []))
     # one-sheet cone (two TRIPOLI-4 parts) flagged, weird flag after a star
     cone = {'id': 6, 'flag': '+', 'text': 'kz 0 1 1', 'mcnp': 1,
             'cls': CLASS_OF[('CONEZ', (0.0, 0.0, 0.0, 45.0))],
